@@ -60,6 +60,8 @@ def main():
         demo_text = open(demo).read()
         d = pkg_dir(demo_text)
         tags = ["-tags", "verif"] if "verif" in demo_text else []
+        if "go test -race" in demo_text:
+            tags.append("-race")
         dst = os.path.join(wt, d, "zz_seed_demo_test.go")
         shutil.copy(demo, dst)
         tests = re.findall(r"^func (Test\w+)\(", demo_text, re.M)
